@@ -77,6 +77,8 @@ class State:
         self.dead = False  # after a divergence the instance is no longer compared (one report per instance)
         self.calls = []    # short journal for witnesses
         self.mem_checked = 0
+        self.adhoc_claims = False   # instance created directly in the proof phase: its claims never went through a claim file
+        self.pre_claim = None
 
 
 _states = weakref.WeakKeyDictionary()
@@ -165,6 +167,11 @@ def _after(name, self, args, result):
         return w
 
     inapplicable = _applicability(name, self, args)
+    if st.adhoc_claims and name == 'publish_proof' and m.stack and m.stack[-1][0] == 'prf' and st.pre_claim is not None:
+        # the interpreter was handed its claims at construction (no claim phase was serialised): the machine learns the
+        # claim now, provided it is the tracker's next claim under the running symbol bijection
+        if tb.match_symbols(E(st.pre_claim), tb.norm_py(m.stack[-1][1]), st.fwd, st.bwd):
+            m.claims.append(m.stack[-1][1])
     # (i) the machine must accept the emitted bytes
     try:
         m.run_phase(code)
@@ -251,6 +258,7 @@ def install():
         st = State()
         ph = self.phase.value
         st.machine.phase = ph
+        st.adhoc_claims = (ph == rm.PROOF)
         _states[self] = st
         if self.out is not None:
             self.out = Tee(self.out, st, ph)
@@ -267,6 +275,10 @@ def install():
         def make(name, orig):
             @functools.wraps(orig)
             def wrapper(self, *args, **kwargs):
+                if name == 'publish_proof':
+                    st = _states.get(self)
+                    if st is not None and st.adhoc_claims:
+                        st.pre_claim = self.claims[0].pattern if self.claims else None
                 result = orig(self, *args, **kwargs)
                 try:
                     _after(name, self, args, result)
